@@ -383,6 +383,8 @@ pub fn canon_text(entries: &[Vec<RelExp>], svs: &[String], order: &[usize]) -> S
 }
 fn sorted_multiset<T: Clone + std::fmt::Debug>(v: &[T]) -> Vec<String> { let mut s: Vec<String> = v.iter().map(|x| format!("{:?}", x)).collect(); s.sort(); s }
 
+fn norm_ver_text(s: &str) -> String { s.to_string() }
+
 pub fn run_wrap(case: &Value, _seed: u64) -> Outcome {
     let mut o = Outcome::default();
     let feats = doc_features(case);
@@ -424,6 +426,35 @@ pub fn run_wrap(case: &Value, _seed: u64) -> Outcome {
         }
         if w.contains('\n') || w.contains('\t') || w.contains("  ") {
             o.v("C13", "canonical_text", "Relations::wrap_and_sort", "mismatch", &feats, &text, format!("output {:?} is not single-line / single-spaced", w));
+        }
+        // 2b. the canonical text the SPECIFICATION derives (MCRelDocs.CanonRel: token list read off the role tags) -
+        // compared exactly when the order is determined (no substitution variable, all names distinct)
+        if let Some(cn) = case["cn"].as_array() {
+            let fixed = |k: &str| match k { "WHITESPACE" => " ", "COLON" => ":", "L_PARENS" => "(", "R_PARENS" => ")", "L_BRACKET" => "[", "R_BRACKET" => "]", "L_ANGLE" => "<", "R_ANGLE" => ">", "NOT" => "!", _ => "?" };
+            let mut entries: Vec<Vec<(String, String)>> = vec![];   // per entry: (name, canonical relation text)
+            for e in cn.iter() {
+                let rels = match e.as_array() { Some(r) if !r.is_empty() => r, _ => continue };
+                let mut v = vec![];
+                for r in rels {
+                    let toks = r.as_array().cloned().unwrap_or_default();
+                    let t: String = toks.iter().map(|t| { let src = t[1].as_u64().unwrap_or(0) as usize; if src > 0 { texts[src - 1].clone() } else { fixed(t[0].as_str().unwrap_or("")).to_string() } }).collect();
+                    let name = toks.first().map(|t| texts[t[1].as_u64().unwrap_or(1) as usize - 1].clone()).unwrap_or_default();
+                    v.push((name, t));
+                }
+                entries.push(v);
+            }
+            let mut all_names: Vec<&String> = entries.iter().flat_map(|e| e.iter().map(|(n, _)| n)).collect();
+            let total = all_names.len(); all_names.sort(); all_names.dedup();
+            if exp_sv.is_empty() && all_names.len() == total && total > 0 {
+                for e in entries.iter_mut() { e.sort(); }
+                entries.sort();
+                let want: String = entries.iter().map(|e| e.iter().map(|(_, t)| t.clone()).collect::<Vec<_>>().join(" | ")).collect::<Vec<_>>().join(", ");
+                o.count("canonical_form_compared_with_spec");
+                // (versions are written as debversion prints them: compare modulo that normalisation only if equal already fails)
+                if w != want && norm_ver_text(&w) != norm_ver_text(&want) {
+                    o.v("C13", "canonical_text", "Relations::wrap_and_sort", "mismatch", &feats, &text, format!("output {:?}, the specification's canonical form is {:?}", w, want));
+                }
+            }
         }
         // 3. sorted: alternatives by name inside each entry, entries by their alternatives' names
         let names: Vec<Vec<&str>> = ws.iter().map(|e| e.iter().map(|r| r.name.as_str()).collect()).collect();
